@@ -12,7 +12,7 @@ import (
 func init() {
 	register(&propInfo{
 		ID:          "C02",
-		Explanation: "Value-origin and path analysis of the response-routing mechanism of the WebSocket client: (R02.1) request ids are minted only by sync/atomic operations on the client's counter, pass through the id normaliser, and nothing else is stored in a request's id; (R02.2) every id-bearing request that is accepted is registered in the in-flight table under its own id, as itself; (R02.3) every mailbox is a fresh channel of capacity >= 1; (R02.4) the response handler delivers to the mailbox of the entry looked up under the response's own id, with result/error/id taken from that same frame; (R02.5) delivery is single: the response handler removes the entry on every path after delivering, the failer empties the table, the accept arm answers only requests it did not register; (R02.6) frames are executed in arrival order: one executor goroutine started outside any loop, enqueue before the next read is started, synchronous dispatch down to the response / channel handlers; (R02.7) the frame decode target is a zero-valued allocation made per frame (decoding into a recycled struct would alias buffers already handed to callers and handlers). (R02.9) the request queue is unbuffered: the hand-over to the connection loop is a rendezvous, so no request is left in a buffer when the loop exits. (R02.10) the connection-unusable mark is set before every loss signal and cleared only after a new socket is installed. (R02.11) no handler runs on the frame executor; (R02.12) the reverse client is built per connection; (R02.13) every hand-over to the loop watches the current exit signal. (R02.14) the frame queue the executor reads from is made once, at construction. (R02.15) a frame taken off the socket is always queued for the executor.",
+		Explanation: "Value-origin and path analysis of the response-routing mechanism of the WebSocket client: (R02.1) request ids are minted only by sync/atomic operations on the client's counter, pass through the id normaliser, and nothing else is stored in a request's id; (R02.2) every id-bearing request that is accepted is registered in the in-flight table under its own id, as itself; (R02.3) every mailbox is a fresh channel of capacity >= 1; (R02.4) the response handler delivers to the mailbox of the entry looked up under the response's own id, with result/error/id taken from that same frame; (R02.5) delivery is single: the response handler removes the entry on every path after delivering, the failer empties the table, the accept arm answers only requests it did not register; (R02.6) frames are executed in arrival order: one executor goroutine started outside any loop, enqueue before the next read is started, synchronous dispatch down to the response / channel handlers; (R02.7) the frame decode target is a zero-valued allocation made per frame (decoding into a recycled struct would alias buffers already handed to callers and handlers). (R02.9) the request queue is unbuffered: the hand-over to the connection loop is a rendezvous, so no request is left in a buffer when the loop exits. (R02.10) the connection-unusable mark is set before every loss signal and cleared only after a new socket is installed. (R02.11) no handler runs on the frame executor; (R02.12) the reverse client is built per connection; (R02.13) every hand-over to the loop watches the current exit signal. (R02.14) the frame queue the executor reads from is made once, at construction. (R02.15) a frame taken off the socket is always queued for the executor. (R02.16) a request whose header the HTTP transport writes to carries a clone or a fresh map.",
 		NotDecided:  "That a given schedule completes; HTTP (one exchange per call, no shared routing state); the redundant response-id equality checks on the caller side (defensive only).",
 		Assumptions: []string{"encoding/json reuses the backing array of a pre-populated []byte/RawMessage field when decoding into it", "the connection loop is the only receiver of the request queue"},
 		Run:         runC02,
@@ -232,6 +232,8 @@ func runC02(c *Ctx) {
 	c.reverseClientFresh("R02.12")
 	c.rule("R02.13", "every hand-over of a request to the connection loop is a select alternative to the client's exit signal as it is at that moment (a call made around close returns)")
 	c.enqueueRule("R02.13")
+	c.ruleOpt("R02.16", "concurrent HTTP calls share nothing mutable: a request whose header the transport writes to (Set/Add/Del) carries a clone or a fresh map, never the header map the client was configured with")
+	c.headerNotShared("R02.16")
 	c.rule("R02.15", "a frame taken off the socket is always handed to the executor: the send on the frame queue waits as long as it takes (no timer or default branch lets the reader discard a frame — the call it answers would never complete)")
 	c.frameNeverDiscarded("R02.15")
 	c.rule("R02.14", "the frame queue the executor reads from is made once, when the connection object is set up: replacing it later (on reconnect) leaves the executor parked on the old queue and no response is dispatched any more")
@@ -929,4 +931,74 @@ func (c *Ctx) defaultLeadsToEnqueue(sel *ssa.Select, isEnq func(ssa.Instruction)
 		return false
 	}
 	return reachFromBlock(def, isReturn, func(x ssa.Instruction) bool { return x != ssa.Instruction(sel) && isEnq(x) }) == nil
+}
+
+// headerNotShared: R02.16. Every store into the Header field of an *http.Request in the library stores a
+// value whose origins are all (http.Header).Clone() results or maps made on the spot — unless no code of
+// that function family ever mutates a request header. Parallel calls over one HTTP client otherwise
+// write the same map concurrently ("fatal error: concurrent map writes" kills the process, and with it
+// every call in flight).
+func (c *Ctx) headerNotShared(rule string) {
+	p := c.P
+	isReqHeader := func(v ssa.Value) bool {
+		f := loadedField(v)
+		return f != nil && f.Name() == "Header" && f.Pkg() != nil && f.Pkg().Path() == "net/http" && isNamed(derefType(v, f), "net/http", "Request")
+	}
+	n := 0
+	for _, fn := range p.Funcs {
+		if pkgOf(fn) != p.Root.Pkg {
+			continue
+		}
+		mutates := false
+		for _, g := range c.region(outermost(fn)) {
+			allInstrsRaw(g, func(in ssa.Instruction) {
+				ci, ok := in.(*ssa.Call)
+				if !ok {
+					return
+				}
+				switch calleeName(ci) {
+				case "(net/http.Header).Set", "(net/http.Header).Add", "(net/http.Header).Del":
+					if c.dependsOn(ci.Common().Args[0], isReqHeader, 0, map[ssa.Value]bool{}) {
+						mutates = true
+					}
+				}
+			})
+		}
+		allInstrsRaw(fn, func(in ssa.Instruction) {
+			st, ok := in.(*ssa.Store)
+			if !ok {
+				return
+			}
+			fa, ok := st.Addr.(*ssa.FieldAddr)
+			if !ok {
+				return
+			}
+			f := fieldOfAddr(fa)
+			if f == nil || f.Name() != "Header" || f.Pkg() == nil || f.Pkg().Path() != "net/http" {
+				return
+			}
+			if pt, ok := fa.X.Type().Underlying().(*types.Pointer); !ok || !isNamed(pt.Elem(), "net/http", "Request") {
+				return
+			}
+			n++
+			construct := fmt.Sprintf("%s: header given to an outgoing request", fname(fn))
+			own := c.allOrigins(st.Val, func(a apath) bool {
+				if len(a.Fields) != 0 {
+					return false
+				}
+				switch x := a.Root.(type) {
+				case *ssa.MakeMap:
+					return true
+				case *ssa.Call:
+					return calleeName(x) == "(net/http.Header).Clone"
+				}
+				return false
+			})
+			c.check(own || !mutates, rule, construct, c.ipos(st), "a clone or a fresh map (or never written to)",
+				"the request is given the client's configured header map itself and the transport then writes to it (Content-Type): calls running in parallel over this client write one map concurrently — the runtime aborts the process, so none of the calls in flight ever returns")
+		})
+	}
+	if n == 0 {
+		c.ok(rule, "request headers", "-", "no store into an http.Request's Header")
+	}
 }
